@@ -155,6 +155,7 @@ def c02(ck):
                     for cap in range(len(pre), len(nm.encode("utf-8")) + 2):
                         ses.append("%d 16 1 d%d b:%s;b:09;b:0d" % (cap, k, gen.hx(pre)))
 
+    ses += tab_sweep_sessions(declgen, sets)
     # the library's own messages that quote what was typed: an unknown short option / long option / argument made of boundary scalars of
     # every encoded length (the short option goes through char_pop_front and back through encode_utf8)
     for k, s_ in enumerate(sets):
@@ -221,7 +222,7 @@ def hist_entries_of(field):
     return b.split(b"\x00")[:-1] if b else []
 
 
-def make_abstract_oracle(cases):
+def make_abstract_oracle(cases, fields=("text", "cur", "hist", "calls")):
     """direct oracle for whole sessions (scripted handler, working sink): the ABSTRACT SESSION of Spec/Session.v (ideal editor over scalar
     values, history as an entry list, dispatch = tokens of the line unless help / rejected), extracted and run on the events the extracted
     decoder makes of the bytes (driver engine aspec). After every input byte the implementation's line, cursor, retained history entries
@@ -250,7 +251,10 @@ def make_abstract_oracle(cases):
             ih = ",".join(e.hex() for e in hist_entries_of(s_["hist"])) or "-"
             if s_["hist"] == "-":
                 ih = h
-            if (s_["text"], s_["cur"], ih, s_["calls"]) != (t, c, h, calls):
+            got = {"text": s_["text"], "cur": s_["cur"], "hist": ih, "calls": s_["calls"]}
+            want = {"text": t, "cur": c, "hist": h, "calls": calls}
+            # only the components the property at hand speaks about (a defect in another component is another property's finding)
+            if any(got[f] != want[f] for f in fields):
                 return ("step %d: the abstract session (ideal line / abstract history / dispatch) has line %s cursor %s history [%s] calls %s, "
                         "the implementation has line %s cursor %s history [%s] calls %s" % (k, t, c, h, calls, s_["text"], s_["cur"], ih, s_["calls"]))
         return None
@@ -322,6 +326,13 @@ def c07(ck):
 
     ck.run_family(Family("session-roundtrip", "ses", ses, oracle=oracle_ses, project=lambda o: [x["calls"] for x in (parse_steps(o) or [])] or o,
                          shrink=None, nontrivial=lambda c, o: True))
+    # 5. ANY line typed through the whole Cli: what the handler receives is the tokens of the line as typed (unclosed quotes, blanks at
+    #    the end inside them, adjacency, escapes): every line up to a length over the six symbols + random lines, judged by the abstract
+    #    session (dispatch = tokens_fun of the line)
+    sl = ["48 33 1 raw b:%s;b:0d" % gen.hx(b) for b in gen.product_bytes(gen.TOK_ALPHA, 5 if thorough else 4) if b]
+    sl += ["64 33 1 raw b:%s;b:0d" % l for l in rl[:2000 if thorough else 500] if l != "."]
+    ck.run_family(Family("session-lines", "ses", sl, oracle=make_abstract_oracle(sl, fields=("calls",)), project=lambda o: [x["calls"] for x in (parse_steps(o) or [])] or o,
+                         shrink=None, nontrivial=lambda c, o: "(" in o))
     return ck.finish(trusted=TB_COMMON, rule="tok-exhaustive: every line up to the stated length over {a, space, quote, backslash, dash, e-acute}; "
                      "tok-random: random lines up to 40 symbols; quote-roundtrip: lists of arbitrary NUL-free strings rendered by the extracted "
                      "render_quoted, tokenised by the implementation, compared with the list. Oracle = extracted tokens_fun. non-trivial = at least one token")
@@ -466,10 +477,21 @@ def c05(ck):
     ck.run_family(Family("editor-ops", "ed", cases, oracle=oracle, shrink=core.shrink_ops_line(1),
                          nontrivial=lambda c, o: ":N:" in o or "ml" in c or "rm" in c))
     ck.cov["families"]["editor-ops"]["exhaustive_part"] = "all op sequences of length <= %d over 7 ops for cap 0..8 (%d cases)" % (depth, ex_n)
+    # the same operations mixed with completions (candidates with multi-byte characters, blanks around the cursor): the line stays the
+    # model's line; the completion itself is judged in C11
+    ccases = []
+    for _ in range(6000 if thorough else 1500):
+        ops = gen.rand_ed_ops(rng, rng.randrange(1, 12))
+        for _i in range(rng.choice([1, 1, 2])):
+            cands = ",".join(gen.hx(rng.choice(gen.MB).encode("utf-8") * rng.choice([1, 2]) + rng.choice([b"", b"k"])) for _ in range(rng.choice([1, 2])))
+            ops.insert(rng.randrange(len(ops) + 1), "ac:" + cands)
+            ops.insert(rng.randrange(len(ops) + 1), "i:" + "20" * rng.choice([1, 2, 3]))
+        ccases.append("%d %s" % (rng.choice([4, 8, 9, 12, 16, 40]), ";".join(ops)))
+    ck.run_family(Family("editor-ops-completion", "ed", ccases, shrink=core.shrink_ops_line(1), decisive=False, nontrivial=lambda c, o: True))
     # through the whole Cli
     m = 6000 if thorough else 3000
     ses = [gen.rand_session(rng, 30, api=False) for _ in range(m)]
-    ck.run_family(Family("session-line", "ses", ses, shrink=core.shrink_ops_line(4), decisive=False, oracle=make_abstract_oracle(ses),
+    ck.run_family(Family("session-line", "ses", ses, shrink=core.shrink_ops_line(4), decisive=False, oracle=make_abstract_oracle(ses, fields=("text", "cur")),
                          project=lambda o: [(s["text"], s["cur"]) for s in (parse_steps(o) or [])] or o,
                          nontrivial=lambda c, o: "1b5b44" in c))
     return ck.finish(trusted=TB_COMMON, rule="editor-ops: every sequence of <= depth operations over {insert a/e-acute/euro/emoji, left, right, remove} for buffer sizes 0..8, "
@@ -572,7 +594,30 @@ def c10(ck):
                 return "Enter at step %d on line %s: HistSpec.hs_push gives entries [%s], implementation retains [%s]" % (k, st[k - 1]["text"], want, got)
         return None
 
-    abstract = make_abstract_oracle(ses)
+    # what is SHOWN on recall: the terminal row is prompt + recalled line, nothing of the line shown before (multi-byte entries over lines
+    # with fewer bytes but more columns, and the reverse)
+    vses = [gen.rand_session_w1(rng, 25) for _ in range(3000 if thorough else 1000)]
+    for mb in gen.MB:
+        for cur in (b"ab", b"hello", b"x"):
+            for k_ in (1, 3):
+                vses.append("24 32 1 raw b:%s;b:0d;b:%s;b:1b5b41;b:1b5b41;b:1b5b42;b:1b5b42" % (gen.hx(mb.encode("utf-8") * k_), gen.hx(cur)))
+                vses.append("24 32 1 raw b:%s;b:0d;b:%s;b:0d;b:1b5b41;b:1b5b41;b:1b5b42" % (gen.hx(mb.encode("utf-8") * k_), gen.hx(cur)))
+    try:
+        _vimpl = core.run_engine(ck.binaries("hac", "debug"), "ses", vses)
+        _vver = dict(zip(vses, drv_run("termchk", _vimpl)))
+    except Broken as b:
+        ck.broken(b)
+        _vver = {}
+
+    def oracle_shown(case, io):
+        v = _vver.get(case)
+        if v is None:
+            v = drv_run("termchk", [io])[0]
+        return None if v == "ok" else "what the terminal shows after a recall is not prompt + the recalled line: " + v
+
+    ck.run_family(Family("session-recall-view", "ses", vses, oracle=oracle_shown, shrink=core.shrink_ops_line(4), decisive=False,
+                         bulk_project=lambda outs: drv_run("termproj", outs), nontrivial=lambda c, o: "1b5b41" in c or "1b5b42" in c))
+    abstract = make_abstract_oracle(ses, fields=("hist", "text"))
     ck.run_family(Family("session-recall", "ses", ses, oracle=lambda c, o: oracle_ses(c, o) or abstract(c, o), shrink=core.shrink_ops_line(4), decisive=False,
                          project=lambda o: [(s["text"], s["hist"]) for s in (parse_steps(o) or [])] or o,
                          nontrivial=lambda c, o: "1b5b41" in c and "0d" in c))
@@ -587,7 +632,7 @@ def c17(ck):
     import time
     rng = ck.rng
     thorough = ck.tier == "thorough"
-    cps = list(gen.BOUNDARY_CPS) + [0x7F, 0x80, 0x7FF, 0x800, 0xFFFF, 0x10000, 0x10FFFF, 0xD7FF, 0xE000] + gen.WS_CPS
+    cps = list(gen.BOUNDARY_CPS) + [0x7F, 0x80, 0x7FF, 0x800, 0xFFFF, 0x10000, 0x10FFFF, 0xD7FF, 0xE000] + gen.WS_CPS + gen.LOWBYTE_CPS
     cps += [gen.rand_cp(rng, 1) for _ in range(5000 if thorough else 1200)]
     cases = []
     for c in cps:
@@ -645,7 +690,7 @@ def c17(ck):
         ck.broken(b)
     # typed, echoed, moved over, deleted, submitted, recalled, used as short option: sessions on boundary scalars
     ses = []
-    for c in gen.BOUNDARY_CPS + [gen.rand_cp(rng, 0) for _ in range(300 if thorough else 60)]:
+    for c in gen.BOUNDARY_CPS + gen.LOWBYTE_CPS + [gen.rand_cp(rng, 0) for _ in range(300 if thorough else 60)]:
         if c in (0x20, 0x7F, 0x22, 0x5C, 0x2D) or 0xD800 <= c <= 0xDFFF:
             continue
         e = gen.hx(gen.enc(c))
@@ -1193,7 +1238,7 @@ def c11(ck):
                          nontrivial=lambda c, o: True))
     m = 6000 if thorough else 3000
     ses = [gen.rand_session(rng, 30, api=False) for _ in range(m)]
-    ck.run_family(Family("session-tab", "ses", ses, shrink=core.shrink_ops_line(4), decisive=False, oracle=make_abstract_oracle(ses),
+    ck.run_family(Family("session-tab", "ses", ses, shrink=core.shrink_ops_line(4), decisive=False, oracle=make_abstract_oracle(ses, fields=("text", "cur")),
                          project=lambda o: [(s_["text"], s_["cur"]) for s_ in (parse_steps(o) or [])] or o,
                          nontrivial=lambda c, o: ";b:09" in c))
     return ck.finish(trusted=TB_COMMON, rule="editor-completion: name sets with shared prefixes, prefix-of-another, multi-byte names, every order; line = blanks + prefix of a name (or random) "
@@ -1231,6 +1276,9 @@ def tab_sweep_sessions(declgen, sets, maxpre=3):
                 for lead in ("", "20"):
                     for cap in range(len(pre) + len(lead) // 2, len(nb) + len(lead) // 2 + 3):
                         out.append("%d 16 1 d%d b:%s%s;b:09;b:0d" % (cap, k, lead, gen.hx(pre)))
+                # blanks after the word and the cursor moved back into them (and into the word) before Tab
+                for blanks, lefts in ((1, 1), (2, 1), (2, 2), (3, 1), (0, 1)):
+                    out.append("%d 16 1 d%d b:%s%s;%sb:09;b:5a;b:0d" % (len(nb) + 8, k, gen.hx(pre), "20" * blanks, "b:1b5b44;" * lefts))
     return out
 
 
@@ -1382,6 +1430,15 @@ def c12(ck):
 
     ck.run_family(Family("derived-help-sessions", "ses", cases, project=proj, oracle=oracle, shrink=core.shrink_ops_line(4),
                          nontrivial=lambda c, o: True))
+    # which lines ARE help requests, with the scripted handler (everything that is not one must reach it): `help` followed by options,
+    # -h / --help inside clusters, after `--`, as a value of nothing; judged by the abstract session (dispatch = help_request of Model/Args.v)
+    hl = []
+    for _ in range(3000 if thorough else 800):
+        toks = [rng.choice(gen.ARG_TOKENS + [b"-v", b"-vh", b"-hv", b"--all", b"led", b"-x", b"help", b"-h", b"--help"]) for _ in range(rng.choice([0, 1, 2, 3, 4]))]
+        hl.append("64 32 1 raw b:%s;b:0d" % gen.hx(gen.cmd_line(rng.choice([b"help", b"help", b"he", b"echo", b"x", b"--help", b"-h"]), toks)))
+    hl = sorted(set(hl))
+    ck.run_family(Family("help-routing-sessions", "ses", hl, oracle=make_abstract_oracle(hl, fields=("calls",)), shrink=None,
+                         project=lambda o: [x["calls"] for x in (parse_steps(o) or [])] or o, nontrivial=lambda c, o: True))
     return ck.finish(trusted=TB_COMMON + ["gen/declgen.py (declarations sampled: corpus + random sets each run)"],
                      rule="for every generated declaration set: `help`, `help <name>` and `<name> -h` for every declared name (hidden ones too), `help nope`, help options inserted at every "
                      "position of generated invocations, `help` followed by nested sub-command paths; direct oracle: no help-shaped line reaches the handler, `help` lists every visible "
